@@ -9,7 +9,6 @@ import (
 	"fmt"
 	"os"
 	"path/filepath"
-	"runtime/pprof"
 	"time"
 	"sort"
 	"strings"
@@ -851,11 +850,6 @@ func c26CrashCase(c *verifmc.Check, f *c26Fix, all []*c26Cfg, pt c26Point, mode 
 func TestMC_C26(t *testing.T) {
 	c := verifmc.Start(t, "C26", "model_checking")
 	defer c.Finish()
-	if pf := os.Getenv("C26_PROF"); pf != "" {
-		fh, _ := os.Create(pf)
-		pprof.StartCPUProfile(fh)
-		defer pprof.StopCPUProfile()
-	}
 	c.SetRule("BFS with state deduplication over all histories [fixture, call, call, ...]: fixture = (day/credit plan, signer layout) of one proposer P, three other signers and rounds 1..3 of three snapshots each around a day boundary, plus the two signer-less genesis snapshots of round 0; call = WriteRoundWork(P, round, first k snapshots of the round, credit[round]) for round 0..3, k 0..3. Calls that hit a panic of the function itself (round > offset+1, shrinking set, two days in one credited fresh batch) are executed, must panic and are not transitions; stale calls (round < offset) are transitions. State = fixture + reference (offset, submitted set, credited set) + digest of all WORK* records. Oracle in every state: ListNodeWorks(P,A,B,C,bystander) on 5 days = counters derived from the SET of snapshots handed to a non-stale credited call. Crash part: for every reference state reachable with <= n calls, on an on-disk ledger: (a) close and reopen, (b) every enabled call attempted with its commit refused through badger.VerifHook, then close and reopen, (c) per enabled call: only its first commit allowed (a crash point inside the call exists only if it is not one transaction); then the AggregateMintWork loop (ReadWorkOffset, ReadSnapshotWorksForNodeRound, WriteRoundWork for offset..3) with the oracle after every step")
 	c.Assume("credit is fixed per round (kernel rule day(first(r)) == day(first(r+1)), or always true as in the mainnet fork-batch exception); every non-genesis snapshot is signed by its proposer; snapshot timestamps within a chain are distinct; a refused Badger commit leaves no trace (checked) and a closed+reopened on-disk store stands for a crashed process (Badger durability itself is trusted); dedup key contains every record WriteRoundWork reads")
 
@@ -897,11 +891,9 @@ func TestMC_C26(t *testing.T) {
 	}
 
 	depth := verifmc.Pick(c, 5, 7)
-	var seqs int64
-	for _, cfg := range cfgs {
-		seqs += c26CountSeqs(cfg, depth)
-	}
-	c.Set("call_sequences_le_depth_represented", seqs)
+	var seqs atomic.Int64
+	c.ParallelN(len(cfgs), "sequence count", func(w, i int) { seqs.Add(c26CountSeqs(cfgs[i], depth)) })
+	c.Set("call_sequences_le_depth_represented", seqs.Load())
 	c.Set("max_calls", depth)
 
 	pool := &c26Pool{c: c, slots: map[int]*c26Slot{}}
@@ -918,7 +910,7 @@ func TestMC_C26(t *testing.T) {
 	}
 	tb := time.Now()
 	states, trans, _, exhausted := b.Run()
-	fmt.Printf("C26-TIMING bfs %v\n", time.Since(tb))
+	c.Set("bfs_wall_s", time.Since(tb).Seconds())
 	c.Set("bfs_states", states)
 	c.Set("bfs_transitions", trans)
 	c.Set("ledger_resets_verified", pool.reset.Load())
@@ -959,7 +951,7 @@ func TestMC_C26(t *testing.T) {
 	})
 	dpool.closeAll()
 	_ = os.RemoveAll(dpool.base)
-	fmt.Printf("C26-TIMING crash %v\n", time.Since(tc))
+	c.Set("crash_wall_s", time.Since(tc).Seconds())
 	c.Set("crash_commits_refused", st.refused.Load())
 	c.Set("crash_restarts_resubmitting_a_recorded_set", st.resubmitted.Load())
 	c.Set("crash_calls_found_to_be_one_transaction", st.singleCommit.Load())
